@@ -226,6 +226,7 @@ func evalC20(c c20Case, o *Obs) error {
 		byWrapped[i].Hash()
 	}
 	overlaps := 0
+	defer c20Watchdog("a generated program (all its repetitions)", 120)()
 	for rep := 0; rep < reps; rep++ {
 		f := bloom.LoadFilter(wire.NewMsgFilterLoad(make([]byte, c.Len), c.K, c.Tweak, wire.BloomUpdateType(c.Flags)))
 		for i := 0; i < c.Preload && i < len(c.Items); i++ {
@@ -588,6 +589,33 @@ func genC20(t *rapid.T) c20Case {
 
 var kC20 = register(&Kind[c20Case]{Prop: "C20", Name: "program", Gen: genC20, Eval: evalC20})
 
+// c20Watchdog: filter calls that never return (a lock taken twice, a lock never released) cannot be judged
+// after the fact.  If the guarded section is still running after the given number of seconds, the process
+// reports a hang for the case saved in current-case.json and exits; the driver turns that into a violation
+// whose replay is that case.  The returned function disarms the watchdog.
+func c20Watchdog(what string, seconds int) func() {
+	wd := time.AfterFunc(time.Duration(seconds)*time.Second, func() {
+		msg := fmt.Sprintf("%s did not finish within %d s: some filter call never returned (deadlock)", what, seconds)
+		buf := make([]byte, 1<<16)
+		buf = buf[:runtime.Stack(buf, true)]
+		var frames []string
+		for _, l := range strings.Split(string(buf), "\n") {
+			if strings.Contains(l, "bchutil/bloom.") || strings.Contains(l, "bchutil/gcs.") {
+				frames = append(frames, strings.TrimSpace(l))
+			}
+		}
+		if len(frames) > 12 {
+			frames = frames[:12]
+		}
+		if outDir != "" {
+			os.WriteFile(filepath.Join(outDir, "hang.txt"), []byte(msg+"; blocked in: "+strings.Join(frames, " | ")), 0o644)
+		}
+		fmt.Printf("HANG property=C20 %s\n", msg)
+		os.Exit(3)
+	})
+	return func() { wd.Stop() }
+}
+
 // ---- kind: lockstep rounds ----------------------------------------------------------------------
 // Load-state bugs show as a disagreement between what IsLoaded says and what is loaded, and only when
 // two state changes overlap within a few dozen nanoseconds.  Instead of starting goroutines per sample,
@@ -621,6 +649,7 @@ func evalC20Lock(c c20Lock, o *Obs) error {
 	}
 	o.NT()
 	o.Class("C20:lockstep-rounds")
+	defer c20Watchdog("lockstep rounds", 120)()
 	f := bloom.LoadFilter(nil)
 	item := []byte("lockstep item")
 	var round, arrived atomic.Int64
